@@ -194,6 +194,25 @@ def hash_sweep(rng, n):
     for _ in range(n):
         progs.append(mp.gen_mprog(rng, rng.choice([1, 2, 3, 4, 6]), p_opts=0.5)[0])
         progs.append(sp.gen_sqlprog(rng, rng.choice([1, 2, 3, 4]))[0])
+    # joins and chains whose operands end in every kind of operation (the column set of a calculation's result is built
+    # differently from a leaf's or a projection's), with a bare projection on either side, in each kind of engine
+    k1, k2, k3, n1 = enc.K(1), enc.K(2), enc.K(3), enc.N(1)
+    for eng in (("sql", 0), ("it", 0)):
+        l1 = ("leaf", 1, eng, [k1, k2], [{k1: 1, k2: 2}], (0, None))
+        l2 = ("leaf", 2, eng, [k1, k3], [{k1: 1, k3: 2}], (0, None))
+        def U(o, t):
+            return ("un", o, mp.DEFAULT, t)
+        calc = ("calc", n1, ("add", ("ref", k1), ("lit", 1)))
+        sel = ("sel", ("cmp", "ge", ("ref", k1), ("lit", 0)))
+        ends = [lambda t: t, lambda t: U(calc, t), lambda t: U(sel, U(calc, t)), lambda t: U(("slice", 0, 3), U(("sort", [(("ref", k1), True)]), U(calc, t))),
+                lambda t: U(("dedup",), U(calc, t)), lambda t: U(("proj", [k1]), t), lambda t: U(("proj", [k1, n1]), U(calc, t)), lambda t: U(sel, U(("proj", [k1]), t))]
+        for fl in ends:
+            for fr in ends:
+                progs.append(("join", None, True, False, fl(l1), fr(l2)))
+                progs.append(("un", ("proj", [k1]), mp.DEFAULT, ("join", None, True, False, fl(l1), fr(l2))))
+        for fl in ends[:5]:
+            for fr in ends[:5]:
+                progs.append(("chain", fl(l1), fr(("leaf", 2, eng, [k1, k2], [{k1: 1, k2: 2}], (0, None)))))
     bad, built = [], 0
     for p in progs:
         w = mp.World()
